@@ -311,7 +311,7 @@ Inductive op :=
 | OCopySlot (t : sty) (h1 : nat) (p1 : path) (j1 : nat) (h2 : nat) (p2 : path) (j2 : nat)
 | OCopyRow (n : nat) (h1 : nat) (p1 : path) (h2 : nat) (p2 : path)
 | OMoveSlot (h1 : nat) (p1 : path) (j1 : nat) (h2 : nat) (p2 : path) (j2 : nat)
-| OMoveRow (h1 : nat) (p1 : path) (h2 : nat) (p2 : path)
+| OMoveRow (n : nat) (h1 : nat) (p1 : path) (h2 : nat) (p2 : path)   (* struct MoveTo; n = row type: the source is reset to the zero struct *)
 | OMoveAppend (newcap : nat) (h1 : nat) (p1 : path) (j1 : nat) (h2 : nat) (p2 : path) (j2 : nat)
 | OReadOnly (h : nat).
 
@@ -343,16 +343,14 @@ Definition cmoved (s : cslot) : cslot :=
   match s with
   | CP _ => CP 0
   | CI _ _ => CI 0 0
-  | CR (Some (_, tg, _)) => if Nat.leb 5 tg then CI 0 0 else CR None
-  | CR None => CR None
+  | CR _ => CI 0 0      (* only a container AnyValue can be the source of a slot MoveTo: v.Value = nil *)
   | CS _ => CS None
   end.
 Definition vmoved (s : vslot) : vslot :=
   match s with
   | VP _ => VP 0
   | VI _ _ => VI 0 0
-  | VR (Some (tg, _)) => if Nat.leb 5 tg then VI 0 0 else VR None
-  | VR None => VR None
+  | VR _ => VI 0 0
   | VS _ => VS []
   end.
 
@@ -422,13 +420,13 @@ Definition cstep (sc : schema) (st : cstate) (o : op) : cstate * nat :=
           end
       | None => (st, 2)
       end
-  | OMoveRow h1 p1 h2 p2 =>
+  | OMoveRow n h1 p1 h2 p2 =>
       if ro st h1 || ro st h2 then (st, 1) else
       if Nat.eqb h1 h2 then (st, 2) else
       match opt_bind (row_of st h1) (fun r => cget r p1) with
       | Some s =>
           match opt_bind (row_of st h2) (fun r => cupd r p2 (fun _ => Some s)),
-                opt_bind (row_of st h1) (fun r => cupd r p1 (fun q => Some (map cmoved q))) with
+                opt_bind (row_of st h1) (fun r => cupd r p1 (fun _ => Some (czero_row sc n))) with
           | Some r2, Some r1 => (set_row (set_row st h2 r2) h1 r1, 0)
           | _, _ => (st, 2)
           end
@@ -542,13 +540,13 @@ Definition astep (sc : schema) (st : astate) (o : op) : astate * nat :=
           end
       | None => (st, 2)
       end
-  | OMoveRow h1 p1 h2 p2 =>
+  | OMoveRow n h1 p1 h2 p2 =>
       if aro st h1 || aro st h2 then (st, 1) else
       if Nat.eqb h1 h2 then (st, 2) else
       match opt_bind (arow_of st h1) (fun r => aget r p1) with
       | Some s =>
           match opt_bind (arow_of st h2) (fun r => aupd r p2 (fun _ => Some s)),
-                opt_bind (arow_of st h1) (fun r => aupd r p1 (fun q => Some (map vmoved q))) with
+                opt_bind (arow_of st h1) (fun r => aupd r p1 (fun _ => Some (vzero_row sc n))) with
           | Some r2, Some r1 => (aset_row (aset_row st h2 r2) h1 r1, 0)
           | _, _ => (st, 2)
           end
